@@ -30,6 +30,14 @@ def run_exec(ctx, profile, cases, idx, tag):
         ctx.violation("hostile input case %d (%s build): %s" % (case, profile, what),
                       {"case": case, "replay": "vh c03exec %s %s %s %s rep.json ring.ndjson --only %d" % (ctx.seed, ctx.tier, cases, idx, case)}, tag="hang")
         return None, trace
+    if r.returncode < 0 or r.returncode in (101, 134, 137, 139):
+        # the executor died: heap corruption detected by the allocator, a segmentation fault, a panic outside its guards.
+        # On the unchanged tree it never dies; the case in progress is the last one it named.
+        m = re.findall(r'"current": (\d+)', r.stdout or "")
+        tail = (r.stdout or "")[-300:].replace("\n", " | ")
+        ctx.violation("the decoder brought the executor down on hostile input (%s build, exit status %d: memory corruption, invalid memory access or abort): %s"
+                      % (profile, r.returncode, tail), {"exit_status": r.returncode, "last_output": tail, "case": int(m[-1]) if m else None}, tag="crash")
+        return None, trace
     if r.returncode != 0:
         raise ToolError("c03exec (%s) failed: %s" % (profile, (r.stdout or "")[-1500:]))
     return json.load(open(rep)), trace
